@@ -87,7 +87,7 @@ func (e *c17Env) Close() {
 }
 
 func runC17(r *vc.Run, replay string) {
-	r.Rule = "cases = statements (INSERT / UPDATE / DELETE, bound arguments) through the XA proxy inside a global transaction, in autocommit mode or in an explicit local transaction with 1..3 statements, 1..2 branches per global transaction, server versions 5.7.36 and 8.0.32, business outcome commit / rollback, phase two on the holding process or on a process that never saw phase one (both versions), and a failure {error, connection lost} injected at XA START, at the business statement, at XA END, at XA PREPARE, or a refused registration; verdicts over the XA commands of the database journal grouped by branch identifier: legal sequence START, statements, END, PREPARE, exactly one successful COMMIT or ROLLBACK; identifier determined by (xid, branch id) and reused by phase two; BranchRegister before XA START; a failure before a successful PREPARE is returned to the caller, ends in a rolled-back branch and is never followed by COMMIT; Committed/Rollbacked answers match the durable data; no branch left dangling; distinct_nontrivial = distinct (mode, statements, fault, outcome, phase-two site, version) signatures with a registered branch"
+	r.Rule = "cases = statements (INSERT / UPDATE / DELETE, bound arguments) through the XA proxy inside a global transaction, in autocommit mode (also 2..3 statements on one dedicated connection, 8.0.32) or in an explicit local transaction with 1..3 statements, 1..2 branches per global transaction, server versions 5.7.36 and 8.0.32, business outcome commit / rollback, phase two on the holding process or on a process that never saw phase one (both versions), and a failure {error, connection lost} injected at XA START, at the business statement, at XA END, at XA PREPARE, or a refused registration; verdicts over the XA commands of the database journal grouped by branch identifier: legal sequence START, statements, END, PREPARE, exactly one successful COMMIT or ROLLBACK; identifier determined by (xid, branch id) and reused by phase two; BranchRegister before XA START; a failure before a successful PREPARE is returned to the caller, ends in a rolled-back branch and is never followed by COMMIT; Committed/Rollbacked answers match the durable data; no branch left dangling; distinct_nontrivial = distinct (mode, statements, fault, outcome, phase-two site, version) signatures with a registered branch"
 	r.Assumptions = []string{"a PREPARE that was executed but whose reply was lost is neither 'a failure before a successful prepare' nor a success the client knows of: no verdict on what becomes of that branch", "two branches of one global transaction work on different tables (separate XA branches cannot see each other's row locks)", "branches reported PhaseOne_Failed get no phase-two request (as the coordinator does)", "the fake database implements the MySQL XA state machine: commands out of order fail with XAER_RMFAIL / XAER_NOTA, a disconnect rolls back a branch that is not PREPARED and detaches a PREPARED one", "XA COMMIT / ROLLBACK of a PREPARED branch from another connection is accepted for both versions (the client decides by the version it reads)"}
 	n := 600
 	if r.Tier == "thorough" {
@@ -157,6 +157,12 @@ func c17Gen(r *vc.Rand, name, ver string, hasSecond bool, forceFault string) *c1
 		if grp.Explicit {
 			ns = 1 + r.Intn(3)
 			mode = "explicit"
+		} else if ver >= "8.0.29" && r.Intn(5) == 0 {
+			// a dedicated connection (db.Conn) running several statement-scoped branches one after the other: possible
+			// where the server detaches a prepared branch from its session
+			grp.Pinned = true
+			ns = 2 + r.Intn(2)
+			mode = "autocommit-dedicated-conn"
 		}
 		for k := 0; k < ns; k++ {
 			o := atStmtOpts{params: true, rowsClass: []string{"1", "many"}[r.Intn(2)]}
@@ -403,13 +409,15 @@ func c17Run(r *vc.Run, e *c17Env, c *c17Case) bool {
 			sess = e.w.TC.WaitSession(b.Resource, 2*time.Second)
 		}
 		st := int64(-1)
-		if sess != nil {
+		// like the coordinator: a request that stays unanswered (the manager failed, e.g. on a pooled connection that
+		// is gone) is sent again, three times in all
+		for attempt := 0; attempt < 3 && st == -1 && sess != nil; attempt++ {
 			_, rch, err := e.w.TC.Request(sess, faketc.BranchEndReq(commit, b), 0)
 			if err == nil {
 				select {
 				case m := <-rch:
 					st = m.I("branchStatus")
-				case <-time.After(3 * time.Second):
+				case <-time.After(1500 * time.Millisecond):
 				}
 			}
 		}
